@@ -15,8 +15,20 @@ func stdB64(s string) string { return base64.StdEncoding.EncodeToString([]byte(s
 func runExtra(r *common.Rand) {
 	runCodec(r)
 	nc := run.Scale(300, 80000)
-	for i := 0; i < nc; i++ {
-		runConc(genConc(r))
+	for i := 0; i < nc; i += 100 {
+		var batch []concCase
+		for j := i; j < nc && j < i+100; j++ {
+			batch = append(batch, genConc(r))
+		}
+		runConcBatch(batch)
+	}
+	if crashkit.Available() {
+		for _, cc := range fixedDelayed() {
+			runConc(cc)
+		}
+		for i := run.Scale(5, 60); i > 0; i-- {
+			runConc(genDelayed(r))
+		}
 	}
 	if !crashkit.Available() {
 		run.Extra["crash_injection"] = "strace injection unavailable: K cases skipped"
@@ -36,7 +48,8 @@ func fixedCrashes() []crashCase {
 	doc := `{"auths":{"https://registry.example.com/":{"auth":"dXNlcjpwYXNz","email":"x@y"}},"HttpHeaders":{"User-Agent":"x"},"big":123456789012345678901234567890}`
 	return []crashCase{
 		{Kind: "K", K: -1, Init: &doc, Mode: 0o644, Op: opx{Op: "P", Addr: "registry.example.com", U: "u", P: "p:q", R: "rt"}},
-		{Kind: "K", K: -1, SubDir: true, Op: opx{Op: "P", Addr: "localhost:5000", U: "user", P: "secret"}},
+		{Kind: "K", K: -1, SubDir: true, Depth: 3, Op: opx{Op: "P", Addr: "localhost:5000", U: "user", P: "secret"}},
+		{Kind: "K", K: -1, Init: &doc, Mode: 0o664, Symlink: true, Op: opx{Op: "P", Addr: "registry.example.com", U: "u", P: "p"}},
 		{Kind: "K", K: -1, Init: &doc, Mode: 0o600, Op: opx{Op: "D", Addr: "https://registry.example.com/"}},
 	}
 }
@@ -56,8 +69,23 @@ func replayExtra(c map[string]string) {
 			fmt.Fprintln(os.Stderr, "bad replay threads:", err)
 			os.Exit(2)
 		}
-		for i := 0; i < 200; i++ { // schedules are not controlled: repeat
-			runConc(cc)
+		if d, ok := c["delay"]; ok && d != "null" && d != "" {
+			cc.Delay = &delaySpec{}
+			if err := json.Unmarshal([]byte(d), cc.Delay); err != nil {
+				fmt.Fprintln(os.Stderr, "bad replay delay:", err)
+				os.Exit(2)
+			}
+			if crashkit.Available() {
+				runConc(cc)
+			}
+			return
+		}
+		for i := 0; i < 4; i++ { // schedules are not controlled: repeat
+			batch := make([]concCase, 50)
+			for j := range batch {
+				batch[j] = cc
+			}
+			runConcBatch(batch)
 		}
 	case "K":
 		cc := crashCase{Kind: "K", K: -1}
@@ -67,6 +95,8 @@ func replayExtra(c map[string]string) {
 		}
 		fmt.Sscanf(c["mode"], "%d", &cc.Mode)
 		cc.SubDir = c["subdir"] == "true"
+		fmt.Sscanf(c["depth"], "%d", &cc.Depth)
+		cc.Symlink = c["symlink"] == "true"
 		if err := json.Unmarshal([]byte(c["cop"]), &cc.Op); err != nil {
 			fmt.Fprintln(os.Stderr, "bad replay op:", err)
 			os.Exit(2)
